@@ -95,9 +95,10 @@ Percentile(x, a, b) ==
 InnerKnots(x, k) == [j \in 1..k |-> Percentile(x, j, k + 1)]
 Min(x) == CHOOSE v \in {x[k] : k \in 1..Len(x)} : \A k \in 1..Len(x) : v <= x[k]
 Max(x) == CHOOSE v \in {x[k] : k \in 1..Len(x)} : \A k \in 1..Len(x) : v >= x[k]
-\* knot vector: both boundary knots repeated degree + 1 times, inner knots in between, sorted
-AllKnots(x, inner, degree) ==
-  [k \in 1..(degree + 1) |-> R(Min(x))] \o inner \o [k \in 1..(degree + 1) |-> R(Max(x))]
+\* knot vector: both boundary knots (lower_bound / upper_bound, by default the extremes of the
+\* training data) repeated degree + 1 times, inner knots in between, sorted
+AllKnots(inner, degree, lb, ub) ==
+  [k \in 1..(degree + 1) |-> R(lb)] \o inner \o [k \in 1..(degree + 1) |-> R(ub)]
 \* Cox-de Boor; the last basis function is closed on the right at the upper boundary (as splev)
 RECURSIVE BBasis(_, _, _, _)
 BBasis(t, i, p, u) ==   \* t knots (1-based), basis i of degree p at u
@@ -110,12 +111,14 @@ BBasis(t, i, p, u) ==   \* t knots (1-based), basis i of degree p at u
            a == IF d1 = <<0, 1>> THEN R(0) ELSE RMul(RDiv(RSub(u, t[i]), d1), BBasis(t, i, p - 1, u))
            b == IF d2 = <<0, 1>> THEN R(0) ELSE RMul(RDiv(RSub(t[i + p + 1], u), d2), BBasis(t, i + 1, p - 1, u))
        IN RAdd(a, b)
-\* bs(y) with parameters from the training vector x: rows of rationals
-BSMatrix(x, y, ninner, degree, intercept) ==
-  LET t == AllKnots(x, InnerKnots(x, ninner), degree)
+\* bs(y) with parameters from the training vector x and the boundary knots lb <= Min(x), ub >= Max(x):
+\* rows of rationals
+BSMatrixB(x, y, ninner, degree, intercept, lb, ub) ==
+  LET t == AllKnots(InnerKnots(x, ninner), degree, lb, ub)
       nb == Len(t) - (degree + 1)
       first == IF intercept THEN 1 ELSE 2
   IN [r \in 1..Len(y) |-> [c \in 1..(nb - first + 1) |-> BBasis(t, c + first - 1, degree, R(y[r]))]]
+BSMatrix(x, y, ninner, degree, intercept) == BSMatrixB(x, y, ninner, degree, intercept, Min(x), Max(x))
 InBounds(x, v) == Min(x) <= v /\ v <= Max(x)
 BSNonNegative(m) == \A r \in 1..Len(m) : \A c \in 1..Len(m[r]) : ~RLess(m[r][c], R(0))
 BSPartitionOfUnity(m) == \A r \in 1..Len(m) : RSum(m[r]) = R(1)
